@@ -10,7 +10,8 @@ start=$(date +%s)
 ./check "$prop" --tier quick "$@" > "seeded/$id/check_output.txt" 2>&1
 rc=$?
 end=$(date +%s)
-git -C /repo checkout -- .
+git -C /repo apply -R "/verif/seeded/$id/patch.diff" 2>/dev/null || git -C /repo checkout -- .
+git -C /repo checkout -- . 2>/dev/null
 git -C /repo status --short | grep -v '^??' | head -3
 echo "seeded=$id property=$prop exit=$rc seconds=$((end-start))"
 grep -E "^VIOLATION|^KNOWN-FINDING|harness error" "seeded/$id/check_output.txt" | head -5
